@@ -5,3 +5,4 @@ import HypnoModel.Drv.C20
 import HypnoModel.Drv.C09
 import HypnoModel.Drv.C02
 import HypnoModel.Drv.C10
+import HypnoModel.Drv.C18
